@@ -23,7 +23,8 @@ LEVEL_TEXT = (
     "sweeps (remove_unused_gates is on every path before the Circuit is assembled, with all panic-record fields as roots: C02-P5); "
     "and the lowering arms for literals, identifiers, tuples, structs, enums, ranges, casts, blocks, calls, let bindings and "
     "irrefutable patterns contain no call that can reach push_gate other than lowering their children. Not decided: that "
-    "constant-index reads/writes fold away (value-level argument about the mux trees) and the zero-AND claim for whole programs.")
+    "constant-index reads/writes fold away (value-level argument about the mux trees) and the zero-AND claim for whole programs."
+    " U1 has no accepted exception any more (the AND-factoring rewrite of push_xor folds its gates through optimize_xor / optimize_and).")
 LEVEL_NOTE = ("Trusted: rustc MIR / call graph; the builder invariant 'operands of existing gates are never the constants 0/1' follows "
               "from U1+U2 by induction over push_gate calls.")
 EXPLANATION = "Functions analysed: circuit::CircuitBuilder::{push_gate, push_xor, push_and, optimize_xor, optimize_and, get_cached, push_mux, push_condswap, build} and TypedExpr/TypedStmt/TypedPattern::compile pruned per variant."
